@@ -239,7 +239,7 @@ def canon(x):
 
 def observe(case, backend):
     """-> ('ok', {'status','solution','objective','iterations', 'type'}) | ('exc', ..) | ('hang',)"""
-    r = guarded(call, case, backend, timeout=5 if case["n"] <= 64 else 40)
+    r = guarded(call, case, backend, timeout=case.get("_timeout") or (5 if case["n"] <= 64 else 40))
     if r[0] != "ok":
         return r
     res = r[1]
@@ -674,7 +674,7 @@ def judge(case, outs):
         if P["status"] == R["status"] == "OPTIMAL" and any(abs(x - y) > max(1e-6, 10 * tol) for x, y in zip(scores["python"], scores["rust"])):
             bad(f"converged scores differ by more than the tolerance: py={scores['python']} rs={scores['rust']}")
         if P["status"] != R["status"] and not probs:
-            near = max((abs(x - y) for x, y in zip(scores["python"], scores["rust"])), default=0) <= 10 * tol
+            near = max((abs(x - y) for x, y in zip(scores["python"], scores["rust"])), default=0) <= max(10 * tol, 1e-12)   # 1e-12: binary64 noise floor
             if not (near and not margin_ok):
                 bad(f"status python={P['status']} rust={R['status']}")
 
@@ -1065,7 +1065,10 @@ def hardening_cases(rng, quick_n, big=False):
         out += [gen_container(rng, fn) for _ in range(max(2, k // 3))]
     for _ in range(2 if not big else 8):
         out += sweep_pagerank(rng)
-    out += [gen_pagerank_work(rng, big) for _ in range(6 if not big else 30)]
+    work = [gen_pagerank_work(rng, big) for _ in range(6 if not big else 30)]
+    for k, mi in enumerate([4097, 10001]):            # both thresholds on every run
+        work[k]["max_iter"] = mi
+    out += work
     return out
 
 
@@ -1076,10 +1079,12 @@ def gen_pagerank_work(rng, thorough=False):
     """class W for the power iteration: slowly mixing chains (damping close to 1, nearly periodic graph) with tol so small that the sweep loop
     runs max_iter = 129 / 1025 / 2049 / 4097 / 10001 (100001 thorough) times; the scores at sweep k still move, so a silent cap on the number of
     sweeps changes the answer (judged against the independent reference iteration at the reported sweep count, tolerance 1e-9)"""
-    n = rng.choice([2, 3, 4, 5])
-    edges = [(i, (i + 1) % n) for i in range(n)] + ([(0, 0)] if rng.random() < 0.5 else [(0, n - 1)])
+    n = rng.choice([3, 5, 7, 9])        # odd: the uniform start has a component along the oscillating eigenvector
+    # two-way path: bipartite, so the chain has the eigenvalue -1 and the uniform start is not stationary (the end nodes have one neighbour):
+    # the scores oscillate with amplitude damping^k - still visible after 10^4 sweeps for damping = 0.9999
+    edges = [(i, i + 1) for i in range(n - 1)] + [(i + 1, i) for i in range(n - 1)]
     mi = rng.choice([129, 1025, 2049, 4097, 10001] + ([100001] if thorough else []))
-    return {"fn": "pagerank_edges", "n": n, "edges": edges, "damping": rng.choice([0.9999, 0.99999, 0.999]), "max_iter": mi,
+    return {"fn": "pagerank_edges", "n": n, "edges": edges, "damping": rng.choice([0.9999, 0.99999]), "max_iter": mi,
             "tol": rng.choice([0.0, 1e-300, 1e-15]), "_family": "W-pagerank-sweeps"}
 
 
@@ -1106,7 +1111,7 @@ def gen_extreme(rng, fn):
     if neg_ok and rng.random() < 0.4 and n >= 4:      # the cancelling chain of the class description
         es = [(0, 1, 2.0 ** 60), (1, 2, -(2.0 ** 60)), (2, 3, rng.choice([1e-3, 5e-324, 1.0])), (0, 3, rng.choice([0.5, 1e-3, 2.0]))] + es[:2]
         rng.shuffle(es)
-    c = {"fn": fn, "n": n, "edges": es, "_family": "X"}
+    c = {"fn": fn, "n": n, "edges": es, "_family": "X", "_timeout": 1.5}
     if fn == "floyd_warshall":
         c["directed"] = rng.random() < 0.6
     if fn in ("bellman_ford", "dijkstra_edges"):
@@ -1131,39 +1136,23 @@ def _xeq(a, b):
     return a == b
 
 
-def _neg_inf_class(P, R):
-    """the known class: python reports a distance -inf where rust reports +inf (matrix) or drops the node (dict) / calls the target unreachable"""
-    def walk(a, b):
-        if isinstance(a, dict) and isinstance(b, dict) and "dict" in a and "dict" in b:
-            da, db = dict(map(tuple, a["dict"])), dict(map(tuple, b["dict"]))
-            if not set(db) <= set(da):
-                return False
-            return all((k in db and _xeq(v, db[k])) or (v == "-inf" and k not in db) for k, v in da.items()) and any(k not in db for k in da)
-        if isinstance(a, list) and isinstance(b, list) and len(a) == len(b):
-            oks = [walk(x, y) for x, y in zip(a, b)]
-            return all(o is not False for o in oks) and any(o == "hit" for o in oks) and "hit" or (all(o is True for o in oks))
-        if a == "-inf" and b == "inf":
-            return "hit"
-        return _xeq(a, b)
-    if P["status"] == R["status"]:
-        w = walk(P["solution"], R["solution"])
-        return w == "hit" or (w is True and isinstance(P["solution"], dict) and P["solution"] != R["solution"])
-    # target mode: python found the target at distance -inf, rust says INFEASIBLE
-    return P["status"] == "OPTIMAL" and P["objective"] == "-inf" and R["status"] == "INFEASIBLE"
+def outside_policy(case):
+    """coordinator's POLICY_X (a)-(c): NaN / +-inf as a value or option, finite floats >= 1e300 (sums overflow), and - for these float-valued
+    APIs - magnitudes whose exact sums do not fit in 2^53: OUTSIDE the property, observed only"""
+    vals = [e[2] for e in case["edges"] if len(e) == 3] + [case[k] for k in ("damping", "tol") if k in case]
+    for v in vals:
+        if isinstance(v, float) and (v != v or v in (INF, -INF)):
+            return True
+        if abs(v) >= 1e300:
+            return True
+    return sum(abs(v) for v in vals if v == v) >= 2.0 ** 53
 
 
 def judge_extreme(case, outs):
-    """-> list of ('viol' | 'neg-inf', message)"""
+    """-> list of ('viol', message); only called for cases inside the policy (finite, well-scaled: -0.0, denormals, 33 vs 33.0, ints for floats)"""
     msgs = []
     for b, o in outs.items():
         if o[0] == "hang" or (o[0] == "exc" and o[1] == "Crash"):
-            # known class (same root as the -inf -> +inf mapping): a negative cycle whose sums reach -inf is not detected (-inf + w < -inf is
-            # false) and the Python path reconstruction then follows a parent cycle forever
-            neg = [e[2] for e in case["edges"] if len(e) == 3 and isinstance(e[2], (int, float)) and e[2] < 0]
-            reaches_neg_inf = bool(neg) and (min(neg) == -INF or sum(neg) * max(1, case["n"]) == -INF)
-            if (o[0] == "hang" and b == "python" and case["fn"] == "bellman_ford" and case.get("target") is not None and reaches_neg_inf
-                    and all(outs[x][0] == "ok" for x in ("rust", "default"))):
-                return [("neg-inf", f"{call_str(case)}: backend=python does not return (parent cycle at distance -inf); rust: {outs['rust'][1]['status']}")]
             return [("viol", f"{call_str(case)}: backend={b} {o}")]
     kinds = {b: (o[0], o[1] if o[0] == "exc" else None) for b, o in outs.items()}
     if any(k[0] == "exc" for k in kinds.values()):
@@ -1185,10 +1174,7 @@ def judge_extreme(case, outs):
     if not _xeq(list(view(D)), list(view(R))):
         msgs.append(("viol", f"{call_str(case)}: default {view(D)} differs from rust {view(R)}"))
     if not _xeq(list(view(P)), list(view(R))):
-        kind = "neg-inf" if fn in ("bellman_ford", "dijkstra_edges", "floyd_warshall") and _neg_inf_class(P, R) else "viol"
-        if fn == "kruskal" and P["status"] == R["status"] and any(isinstance(e[2], float) and e[2] != e[2] for e in case["edges"]):
-            kind = "nan-order"      # known class: a NaN weight makes the two sorts (Python sorted / Rust sort_by with partial_cmp) order the edges differently
-        msgs.append((kind, f"{call_str(case)}: python {view(P)} vs rust {view(R)}"))
+        msgs.append(("viol", f"{call_str(case)}: python {view(P)} vs rust {view(R)}"))
     return msgs
 
 
@@ -1775,9 +1761,6 @@ def _scc_one(n, shape, backend):
     return None if ok else f"{r.status.name}, {len(r.solution)} components, objective {r.objective}"
 
 
-SCC_DEPTH_ID = "C12-rust-scc-stack-overflow"
-NEG_INF_ID = "C12-rust-neg-inf-distance"
-NAN_ID = "C12-kruskal-nan-weight"
 
 
 def scc_deep(ctx, n, shape):
@@ -1792,11 +1775,7 @@ def scc_deep(ctx, n, shape):
     if not bad:
         return
     what = f"strongly_connected_components_edges({n}, {'ring' if shape == 'ring' else 'path'} 0->1->..->{n - 1}{'->0' if shape == 'ring' else ''}): " + ", ".join(f"backend={b}: {v}" for b, v in res.items())
-    if res["python"] == "ok" and n >= 45000 and all(str(v).startswith("crash") for v in bad.values()):
-        opens = [f for f in ctx.open_findings() if "scc" in (f.get("id", "") + f.get("class", "")).lower() and "stack" in (f.get("id", "") + f.get("class", "")).lower()]
-        ctx.known_hit(opens[0]["id"] if opens else SCC_DEPTH_ID, what + "  (recursive strongconnect in rust/src/algorithms/scc.rs overflows the native stack; the Python path answers)")
-    else:
-        ctx.violation(what, {"scc_deep": [n, shape], "observed": res})
+    ctx.violation(what, {"scc_deep": [n, shape], "observed": res})
 
 
 BIG = {"bf_reversed": big_bf_reversed, "star": big_star, "dense_pendant": big_dense_pendant, "ring": big_ring, "kruskal_balanced": big_kruskal_balanced, "fw_line": big_fw_line, "parallel": big_parallel}
@@ -1970,15 +1949,50 @@ def _obs_result(res):
     return {"status": res.status.name, "solution": canon(res.solution), "objective": canon(res.objective), "type": type(res.solution).__name__}
 
 
+def _seq_call(seq, st, e):
+    f = _fn(st["fn"])
+    backend = None if st["backend"] == "default" else st["backend"]
+    kw = {} if backend is None else {"backend": backend}
+    try:
+        if st["fn"] == "floyd_warshall":
+            r = guarded(f, seq["n"], e, directed=st["directed"], timeout=5, **kw)
+        elif st["fn"] == "bellman_ford":
+            r = guarded(f, st["source"], e, seq["n"], target=st["target"], timeout=5, **kw)
+        elif st["fn"] in ("dijkstra_edges", "bfs_edges", "dfs_edges"):
+            r = guarded(f, seq["n"], e, st["source"], target=st["target"], timeout=5, **kw)
+        elif st["fn"] == "kruskal":
+            r = guarded(f, seq["n"], e, allow_forest=st["allow_forest"], timeout=5, **kw)
+        elif st["fn"] == "pagerank_edges":
+            r = guarded(f, seq["n"], e, damping=st["damping"], max_iter=st["max_iter"], tol=st["tol"], timeout=5, **kw)
+        else:
+            r = guarded(f, seq["n"], e, timeout=5, **kw)
+    except BaseException as ex:  # noqa: BLE001
+        r = ("exc", type(ex).__name__, str(ex)[:200])
+    return _obs_result(r[1]) if r[0] == "ok" else list(r)
+
+
+def _fresh_pass(seq, contents):
+    """every call of the sequence once more, each on a brand-new copy of the content the shared object had at that moment - in a process of
+    its own and in REVERSE order, so that no state left behind by the shared pass (or by an earlier fresh call) can be reused"""
+    out = {}
+    tup = seq.get("container") == "tuple"
+    for k in sorted(contents, reverse=True):
+        e = [tuple(x) for x in contents[k]]
+        out[k] = _seq_call(seq, seq["steps"][k], tuple(e) if tup else e)
+    return out
+
+
 def run_sequence(seq):
-    """-> list of per-step dicts {'shared': obs | error, 'fresh': obs | error, 'modified': None | description}"""
+    """-> list of per-step dicts {'shared': obs | error, 'fresh': obs | error, 'modified': None | description}.
+    The shared pass runs first and alone: interleaving the reference calls would reset / refill any cache the implementation keeps."""
     pristine = [tuple(e) for e in seq["edges"]]
     shared = [tuple(e) for e in pristine]
     ids = [id(x) for x in shared]
     if seq.get("container") == "tuple":
         shared = tuple(shared)
     out = []
-    for st in seq["steps"]:
+    contents = {}
+    for k, st in enumerate(seq["steps"]):
         if "edit" in st:
             if isinstance(shared, list):
                 apply_edit(shared, st)
@@ -1986,37 +2000,17 @@ def run_sequence(seq):
                 ids = [id(x) for x in shared]
             out.append({"shared": None, "fresh": None, "modified": None, "content": [list(x) for x in pristine]})
             continue
-        case = dict(st, n=seq["n"], edges=pristine)
-        backend = None if st["backend"] == "default" else st["backend"]
-        rec = {}
-        for which in ("shared", "fresh"):
-            f = _fn(st["fn"])
-            kw = {} if backend is None else {"backend": backend}
-            e = shared if which == "shared" else (tuple(tuple(x) for x in pristine) if seq.get("container") == "tuple" else [tuple(x) for x in pristine])
-            try:
-                if st["fn"] == "floyd_warshall":
-                    r = guarded(f, seq["n"], e, directed=st["directed"], timeout=5, **kw)
-                elif st["fn"] == "bellman_ford":
-                    r = guarded(f, st["source"], e, seq["n"], target=st["target"], timeout=5, **kw)
-                elif st["fn"] in ("dijkstra_edges", "bfs_edges", "dfs_edges"):
-                    r = guarded(f, seq["n"], e, st["source"], target=st["target"], timeout=5, **kw)
-                elif st["fn"] == "kruskal":
-                    r = guarded(f, seq["n"], e, allow_forest=st["allow_forest"], timeout=5, **kw)
-                elif st["fn"] == "pagerank_edges":
-                    r = guarded(f, seq["n"], e, damping=st["damping"], max_iter=st["max_iter"], tol=st["tol"], timeout=5, **kw)
-                else:
-                    r = guarded(f, seq["n"], e, timeout=5, **kw)
-            except BaseException as ex:  # noqa: BLE001
-                r = ("exc", type(ex).__name__, str(ex)[:200])
-            rec[which] = _obs_result(r[1]) if r[0] == "ok" else list(r)
+        contents[k] = [tuple(x) for x in pristine]
+        rec = {"shared": _seq_call(seq, st, shared), "fresh": None, "modified": None}
         now = list(shared)
-        rec["modified"] = None
         if len(now) != len(pristine) or any(a != b for a, b in zip(now, pristine)):
             rec["modified"] = f"{len(pristine)} edges before the call, afterwards {now[:12]}{'...' if len(now) > 12 else ''}"
         elif [id(x) for x in now] != ids:
             rec["modified"] = "elements of the caller's list were replaced by other objects"
         out.append(rec)
-        del case
+    fr = _in_child(_fresh_pass, seq, contents, timeout=60.0)
+    for k in contents:
+        out[k]["fresh"] = fr[1][k] if fr[0] == "ok" else ["exc", "Crash", str(fr)]
     return out
 
 
@@ -2376,6 +2370,8 @@ def run(ctx: Ctx):
     ctx.notes.append("floats: integer-weight cases go through the Z models (exact below 2^53); float-weight cases are judged by the Python oracle with "
                      "relative tolerance 1e-9 only; PageRank through exact rationals with tolerance 1e-9 on scores at the reported sweep count")
     ctx.notes.append("not compared (metadata, not part of C12): iterations / evaluations counters, rust pagerank objective 0.0; invalid inputs are outside C12")
+    ctx.notes.append("rust SCC kernel: iterative Tarjan with explicit frames since 50224e7, same visiting order and output as the recursive kernel that "
+                     "SV.C12.RsScc transliterates (the fuel-based recursive model describes the same function); tied by the correspondence on every run")
     ctx.notes.append("rust dijkstra: BinaryHeap tie-breaking among equal costs is not modelled; its path is checked as a walk of the reported weight, not literally")
 
     big = ctx.tier == "thorough"
@@ -2430,7 +2426,8 @@ def run(ctx: Ctx):
     # ---- class S (large, by construction) : each item in its own child
     plan = big_plan(ctx.rng, big)
     work = work_counts(plan)
-    for n_, shape_ in [(4099, "path"), (10001, "ring"), (40000, "path"), (50001, ctx.rng.choice(["path", "ring"]))] + ([(2 ** 20 + 2, "path")] if big else []):
+    # (the Rust kernel is an iterative Tarjan since 50224e7 - same visiting order and output as the recursive one that SV.C12.RsScc transliterates)
+    for n_, shape_ in [(4099, "path"), (10001, "ring"), (50001, ctx.rng.choice(["path", "ring"])), (100001, ctx.rng.choice(["path", "ring"]))] + ([(2 ** 20 + 2, "path"), (2 ** 20 + 2, "ring")] if big else []):
         scc_deep(ctx, n_, shape_)
         work["scc.recursion_depth"] = max(work.get("scc.recursion_depth", 0), n_)
     work["pagerank.sweeps"] = max([c["max_iter"] for c in cases if c["fn"] == "pagerank_edges"] + [0])
@@ -2451,26 +2448,22 @@ def run(ctx: Ctx):
                {"fn": "bellman_ford", "n": 4, "edges": [(0, 1, 2.0 ** 60), (1, 2, -(2.0 ** 60)), (2, 3, 1e-3), (0, 3, 0.5)], "source": 0, "target": 3, "_family": "X"},
                {"fn": "dijkstra_edges", "n": 3, "edges": [(0, 1, 1e308), (1, 2, 1e308)], "source": 0, "target": 2, "_family": "X"},
                {"fn": "bellman_ford", "n": 3, "edges": [(0, 1, -1e308), (1, 0, -1e308)], "source": 0, "target": 1, "_family": "X"}]
-    n_x, neg_hits, nan_hits = 0, [], []
+    n_x = 0
     for case, outs in zip(xcases, run_cases(xcases)):
         ctx.evaluations += 3
+        if outside_policy(case):
+            # observation only: the call may return anything or raise; hangs are cut by the guard and counted
+            kinds = sorted({("hang" if o[0] == "hang" else "raises" if o[0] == "exc" else "returns") for o in outs.values()})
+            agree = all(o[0] == "ok" for o in outs.values()) and not judge_extreme(case, outs)
+            ctx.count("observation_only", case["fn"].replace("_edges", "") + ":" + ("back-ends agree" if agree else "+".join(kinds) + (" (differ)" if kinds == ["returns"] else "")))
+            continue
         ctx.count("family", "X:" + case["fn"].replace("_edges", ""))
         for kind, msg in judge_extreme(case, outs):
-            if kind == "neg-inf":
-                neg_hits.append(msg)
-            elif kind == "nan-order":
-                nan_hits.append(msg)
-            else:
-                n_x += 1
-                if n_x <= 3:
-                    ctx.violation("float extremes: " + msg, {"xcase": clean(case), "outs": outs})
-    if neg_hits:
-        opens = [f for f in ctx.open_findings() if "inf" in (f.get("id", "") + f.get("class", "")).lower()]
-        ctx.known_hit(opens[0]["id"] if opens else NEG_INF_ID, f"{len(neg_hits)} case(s), first: {neg_hits[0]}  (the rust bindings turn a distance of -inf into +inf)")
-
-    if nan_hits:
-        opens = [f for f in ctx.open_findings() if "nan" in (f.get("id", "") + f.get("class", "")).lower()]
-        ctx.known_hit(opens[0]["id"] if opens else NAN_ID, f"{len(nan_hits)} case(s), first: {nan_hits[0]}  (kruskal with a NaN weight: the back-ends sort the edges differently)")
+            n_x += 1
+            if n_x <= 3:
+                ctx.violation("float extremes: " + msg, {"xcase": clean(case), "outs": outs})
+    ctx.notes.append("observation only (outside C12 by the coordinator's POLICY_X a-c): NaN / +-inf as weight or option, |value| >= 1e300 (sums overflow), "
+                     "magnitudes whose exact sums exceed 2^53 in these float-valued APIs; such cases are run, never judged, and counted in histograms.observation_only")
 
     # ---- class A: one shared input object through consecutive calls (different functions / options / back-ends, random order)
     seqs = []
@@ -2564,7 +2557,7 @@ def replay(obj):
             print(b, "->", outs[b])
         msgs = judge_extreme(case, outs)
         for k, m in msgs:
-            print(("VIOLATES: " if k == "viol" else "KNOWN CLASS (-inf): ") + m)
+            print("VIOLATES: " + m)
         return 1 if any(k == "viol" for k, _ in msgs) else 0
     if obj.get("big"):
         setup()
